@@ -36,6 +36,7 @@ ASSUMPTIONS = [
     "`tolerance` is the user's absolute 'this is zero' threshold (item norms) and relative pseudo-inverse cut (selected spectrum): cases where a residual item norm or the squared relative spectrum of the selections is within 100x of it are skipped",
 ]
 RULE = RULE + " " + forms.RULE_SUFFIX
+RULE = RULE + " " + 'One case in 1250: plain CUR, k = 2 or 3, on a table with 66000-70000 items on the long side and 6-10 on the short one.'
 KINDS = ("gauss", "gauss", "uniform", "scaled1", "clustered", "lattice", "lowrank_hi", "copies", "multiscale")
 TOL_PI = 1e-6
 
